@@ -30,9 +30,9 @@ THEOREMS = ["AurelVerif.C06." + t for t in (
     "dts_Gamma_bssnok_spec", "dts_Gamma_bssnok_matter_vs_vacuum",
     "rho_n_spec", "fluxup3_n_spec", "fluxup3_n_closed", "Stress_spec", "Stressdown3_n_is_T",
     "dtgammaup3_is_dt_inverse", "dtphi_bssnok_is_dt_logdet", "dtgammadown3_bssnok_is_dt_conformal",
-    "dtgammaup3_is_dt", "dtphi_bssnok_is_dt", "dtgammadown3_bssnok_is_dt")] + [
+    "dtgammaup3_is_dt", "dtphi_bssnok_is_dt", "dtgammadown3_bssnok_is_dt", "A2_bssnok_closed", "dtKtrace_is_dt_trace")] + [
     "AurelVerif.C06Deriv." + t for t in ("sandwich3", "inv_deriv", "dt_inverse_metric", "Deriv.det3", "deriv_of_inverse",
-                                         "dt_logdet", "dt_conformal_metric")]
+                                         "dt_logdet", "dt_conformal_metric", "A2_closed", "dt_trace_K")]
 NEEDED = ["Hamiltonian", "Momentumup3", "Momentumx", "Momentumy", "Momentumz", "dtKtrace", "dtphi_bssnok", "dtgammaup3",
           "dtgammadown3_bssnok", "dtAdown3_bssnok", "dts_Gamma_bssnok", "rho_n", "fluxup3_n", "Stressup3_n",
           "Stressdown3_n", "Stresstrace_n", "Lie_beta_scalar", "Lie_beta_s_uu", "Lie_beta_w_s_dd", "s_covd_uu", "trace3",
@@ -431,8 +431,8 @@ def run(ctx):
     ctx.trusted += ["sympy differentiation + lambdify and numpy.linalg (search oracle only)"]
     ctx.assumptions += [
         "NOT covered by any theorem (continuum theory, trusted): 'the constraints converge to zero on every exact solution' = contracted "
-        "Gauss-Codazzi identities + Einstein's equations; the derivation of the BSSNOK right-hand sides of dtKtrace, dtAdown3_bssnok, "
-        "dts_Gamma_bssnok from the ADM equations; the convergence order of the composed finite-difference expressions. These are watched by "
+        "Gauss-Codazzi identities + Einstein's equations; the derivation of the BSSNOK right-hand sides of dtAdown3_bssnok, "
+        "dts_Gamma_bssnok from the ADM equations (dtKtrace IS derived, with the ADM equation for K_ij and the Hamiltonian constraint as hypotheses); the convergence order of the composed finite-difference expressions. These are watched by "
         "the sympy oracle on exact solutions at two resolutions (a test, labelled as such).",
         "Layer B theorems (dtgammaup3, dtphi_bssnok, dtgammadown3_bssnok are d/dt of gamma^-1, ln(det gamma)/12, psi^-4 gamma_ij) take the "
         "product rule for d_t and d_i and the kinematic relation d_t gamma_ij = -2 alpha K_ij + L_beta gamma_ij as hypotheses; the logarithm and "
@@ -446,7 +446,7 @@ def run(ctx):
             ctx.leanchecker([MODULE])
     extra = 1 if ctx.broken() else 0
     if ctx.tier == "thorough":
-        specs = specs_for(ctx, 4 + extra, 2, (2, 4, 6), 16)
+        specs = specs_for(ctx, 8 + extra, 3, (2, 4, 6), 16)
     else:
         specs = specs_for(ctx, 1 + extra, 1, (4, 6), 16)
     with np.errstate(all="ignore"):
@@ -480,10 +480,11 @@ MANIFEST = {
             "1/6, -2/3, +2/3, which terms the vacuum branches drop (dtKtrace's vacuum branch also drops Lambda); rho_n, fluxup3_n, Stress* are "
             "T n n, -gamma T n, gamma gamma T (S_ij = T_ij). Layer B (product rule for d_t, d_i and d_t gamma_ij = -2 alpha K_ij + L_beta gamma_ij as "
             "hypotheses): dtgammaup3 = d_t(gamma^-1), dtphi_bssnok = d_t(ln det gamma / 12) (Jacobi's formula as a field identity), "
-            "dtgammadown3_bssnok = d_t(psi^-4 gamma_ij).",
+            "dtgammadown3_bssnok = d_t(psi^-4 gamma_ij); with the ADM evolution equation of K_ij and the Hamiltonian constraint as further "
+            "hypotheses: dtKtrace = d_t(gamma^ij K_ij), using A~_ij A~^ij = K_ij K^ij - K^2/3.",
     "note": "PARTIAL scope, stated: no theorem covers 'the constraints converge to zero on every exact solution' (= contracted Gauss-Codazzi "
-            "identities + Einstein's equations, continuum theory), nor the derivation of the BSSNOK right-hand sides of dtKtrace / dtAdown3_bssnok / "
-            "dts_Gamma_bssnok from ADM, nor convergence orders; these are only TESTED by the sympy oracle (random smooth 4-metrics in a random gauge "
+            "identities + Einstein's equations, continuum theory), nor the derivation of the BSSNOK right-hand sides of dtAdown3_bssnok / "
+            "dts_Gamma_bssnok from ADM (only their term-by-term match with the cited equations), nor the ADM equations themselves, nor convergence orders; these are only TESTED by the sympy oracle (random smooth 4-metrics in a random gauge "
             "with T := (G + Lambda g)/kappa, and a moving Kerr-Schild vacuum solution; constraints -> 0 and each dt-key -> exact d/dt at two "
             "resolutions, fd_order 4 and 6). Trusted: Lean kernel + propext/Classical.choice/Quot.sound; the symbolic-execution translator (validated "
             "each run); numpy semantics; exact arithmetic instead of IEEE-754; the book equations as transcribed in Spec/ADM.lean (equation numbers "
